@@ -10,3 +10,18 @@ pub fn no_format(_: std::fmt::Arguments<'_>) -> String {
 pub fn forget<T>(t: T) {
     std::mem::forget(t)
 }
+
+/// Stub for `anyhow::__private::format_err` in harnesses whose property says "no error on
+/// any path": constructing an error is reported as a failure at the construction site,
+/// and the (very expensive for CBMC) anyhow object model is never entered.
+pub fn error_is_failure(_: std::fmt::Arguments<'_>) -> anyhow::Error {
+    panic!("an error was constructed on a path where the property requires success")
+}
+
+/// Stub for `anyhow::__private::format_err` in harnesses where returning an error is a
+/// legitimate outcome: fabricates an opaque, never dereferenced error handle (anyhow::Error
+/// is one non-null pointer).  Every such error is leaked by the harness (`forget`), so the
+/// handle is never dropped or displayed; a dereference would be reported by CBMC.
+pub fn error_opaque(_: std::fmt::Arguments<'_>) -> anyhow::Error {
+    unsafe { std::mem::transmute::<usize, anyhow::Error>(16usize) }
+}
